@@ -227,6 +227,7 @@ func cmdCheck(args []string) (code int) {
 			}
 		}
 	}
+	c.runBorrowed(id)
 	return c.finish(pi, start, *verbose)
 }
 
@@ -492,5 +493,70 @@ func fullExplanation(id string, pi *propInfo) string {
 	if len(docs) > 0 {
 		e += " Shared producer rules (reported under this property's id as well): " + strings.Join(docs, "; ") + "."
 	}
+	if bs := borrowed[id]; len(bs) > 0 {
+		var ds []string
+		for _, b := range bs {
+			ds = append(ds, "("+b.As+") = "+b.Rule+": "+b.Why)
+		}
+		e += " Borrowed rules (obligations of another property's rule that this property depends on, re-run and reported here too): " + strings.Join(ds, "; ") + "."
+	}
 	return e
+}
+
+// Borrowed rules: a rule of another property whose subject this property depends on is re-run and its obligations
+// are recorded under this property's id as well (same construct keys), so a change that breaks the producer is
+// reported by every property that consumes it. Only rules without known findings are borrowed.
+type borrow struct {
+	From string // property
+	Rule string // rule id there
+	As   string // suffix here
+	Why  string
+}
+
+var borrowed = map[string][]borrow{
+	"C01": {{"C12", "C12.O1-O2-O6", "QUORUM-R", "the acknowledgement count the quorum is measured against"}, {"C12", "C12.O3-O4", "QUORUM-Q", "the failover quorum meets every acknowledging set"}, {"C12", "C12.O5", "QUORUM-CHECK", "the quorum check says yes exactly when the quorum is met"}},
+	"C05": {{"C12", "C12.O1-O2-O6", "QUORUM-R", "as for C01"}, {"C12", "C12.O3-O4", "QUORUM-Q", "as for C01"}, {"C12", "C12.O5", "QUORUM-CHECK", "approval relies on the check"}, {"C16", "C16.FLAG", "CASCADEFLAG", "the HA-node count of the 'coordination problem' guard skips cascade replicas by this flag"}, {"C16", "C16.COUNT", "COUNTERS", "the counters approval compares"}},
+	"C12": {{"C01", "C01.g3", "RECOUNT", "the recount after the freeze hands the published list and the frozen count to the check"}, {"C16", "C16.COUNT", "COUNTERS", "the alive-replica count handed to the check counts replicas only"}},
+	"C03": {{"C02", "C02.AUTO-i", "QUORUMLOSS", "a manager that released the lock after losing its quorum ends the iteration"}},
+	"C06": {{"C02", "C02.AUTO-i", "QUORUMLOSS", "a process that gave the lock away does not go on to process the request"}},
+	"C02": {{"C03", "C03.SESSION", "LOCKCACHE", "one manager: the lock cache dies with the session"}},
+	"C07": {{"C03", "C03.SESSION", "LOCKCACHE", "the lock re-checks stop a deposed manager only if the cache is dropped on session loss"}},
+	"C10": {{"C13", "C13.CALLERS", "RELATIONS", "repair's progress test uses 'ahead' on (new, old)"}},
+	"C14": {{"C15", "C15.IDENTITY", "IDENTITY", "'no configuration = priority 0' is an errors.Is test on the wrapper's error"}},
+	"C09": {{"C05", "C05.SITES", "REQUEST", "light mode recognises a failover request by the transition the filing helper writes"}},
+}
+
+func (c *Check) runBorrowed(id string) {
+	bs := borrowed[id]
+	if len(bs) == 0 {
+		return
+	}
+	cache := map[string]*Check{}
+	for _, b := range bs {
+		sub := cache[b.From]
+		if sub == nil {
+			sub = &Check{Prop: b.From, Tier: "quick", p: c.p, eff: c.eff, extra: map[string]any{}}
+			func() {
+				defer func() {
+					if r := recover(); r != nil {
+						sub.obs = append(sub.obs, Obligation{Rule: b.Rule, Func: "-", Site: "-", Construct: "borrowed-run", Desc: "the lending property's rules run", OK: false, Kind: "UNDECIDED", Detail: fmt.Sprint(r)})
+					}
+				}()
+				props[b.From].Run(sub)
+			}()
+			cache[b.From] = sub
+		}
+		n := 0
+		for _, o := range sub.obs {
+			if o.Rule != b.Rule {
+				continue
+			}
+			n++
+			o.Rule = id + "." + b.As
+			c.obs = append(c.obs, o)
+		}
+		if n == 0 {
+			c.obs = append(c.obs, Obligation{Rule: id + "." + b.As, Func: "-", Site: "-", Construct: "borrowed:" + b.Rule, Desc: "the borrowed rule has instances", OK: false, Kind: "VACUOUS", Detail: "no obligation of " + b.Rule})
+		}
+	}
 }
